@@ -161,9 +161,11 @@ func TestC15FaultInjection(t *testing.T) {
 				s := mk()
 				rel := func(p string) string { return strings.TrimPrefix(p, s0.root) }
 				inj := &Injection{Op: 0, Event: ev.Seq, Errno: int(en), Name: ev.Name}
-				res, out, err := s.trace([]Op{c.Op}, inj, true)
+				// the process (same store handle) goes on after the fault: an add of an unrelated new user follows
+				follow := Op{Kind: "add", User: "zz-follow", PW: "after-the-fault"}
+				res, out, err := s.trace([]Op{c.Op, follow}, inj, true)
 				injected++
-				if err != nil || len(res.Ops) != 1 {
+				if err != nil || len(res.Ops) != 2 {
 					s.cleanup()
 					t.Fatalf("VERIF-INFRA injected run failed: %v", err)
 				}
@@ -181,7 +183,7 @@ func TestC15FaultInjection(t *testing.T) {
 					}
 					return ""
 				}())
-				if res.ExitCode != 0 || res.Signal != 0 || len(out) != 1 {
+				if res.ExitCode != 0 || res.Signal != 0 || len(out) != 2 {
 					s.cleanup()
 					t.Fatalf("VIOLATION C15: the process died (exit %d, signal %d) instead of reporting an error; %s", res.ExitCode, res.Signal, ctx)
 				}
@@ -254,6 +256,30 @@ func TestC15FaultInjection(t *testing.T) {
 				if afterMutation {
 					vlib.NT("c15c", c.Op.Kind, c.Pre != nil, ev.Name, ev.Seq, int(en))
 					vlib.Class("injection-after-first-mutation")
+				}
+				// the operation after the fault touches only its own target, whatever state the fault left in the handle
+				if f := res.Ops[1]; out[1].OK {
+					fd := f.Pre.Diff(f.Post, false, func(r string) bool { return r == "." || r == ".tmp" || r == "zz-follow.user" })
+					first, _ := vlib.SplitRecord(f.Post["zz-follow.user"].Data)
+					ftmp := 0
+					for r := range f.Post {
+						if strings.HasPrefix(r, ".tmp/") {
+							if _, before := f.Pre[r]; !before {
+								ftmp++
+							}
+						}
+					}
+					if len(fd) > 0 || !cfg.Verify(first, follow.PW) || ftmp > 0 {
+						s.cleanup()
+						t.Fatalf("VIOLATION C15: the add of an unrelated user that followed on the same handle changed other entries %v (record complete=%v, new temp files %d); first operation: %s", fd, cfg.Verify(first, follow.PW), ftmp, ctx)
+					}
+					vlib.Class("follow-up-op-after-fault:touches-only-its-target")
+				} else {
+					if fd := f.Pre.Diff(f.Post, false, func(r string) bool { return r == "." || r == ".tmp" }); len(fd) > 0 {
+						s.cleanup()
+						t.Fatalf("VIOLATION C15: the add that followed the faulted operation reported failure (%s) but changed the store: %v; first operation: %s", out[1].Err, fd, ctx)
+					}
+					vlib.Class("follow-up-op-after-fault:reported-failure(store unchanged)")
 				}
 				vlib.Class("inject:" + ev.Name + ":" + en.Error())
 				s.cleanup()
